@@ -178,6 +178,17 @@ impl EventData {
         get_scheduler().schedule(co);
     }
 
+    /// the operation the timer was armed for is over: make sure the timer can never fire into a later operation
+    #[cfg(feature = "io_timeout")]
+    pub(crate) fn disarm_timer(&self) {
+        if let Some(h) = self.timer.borrow_mut().take() {
+            unsafe {
+                h.with_mut_data(|value| value.data.event_data = std::ptr::null_mut());
+            }
+            h.remove();
+        }
+    }
+
     /// used by local re-schedule that in `subscribe`
     #[inline]
     pub fn fast_schedule(&self) {
